@@ -692,3 +692,25 @@ package impl
 //@   panics-when !parseOkK(6, fmtS(ctx.Now, "15:04:05.000"))
 //@   ensures err == nil && len(res) == 1 && res[0] == parseValK(6, fmtS(ctx.Now, "15:04:05.000"))
 //@   assigns nothing
+//
+// ---- C01/C03: the Boolean aggregates are total, answer with one Boolean, and write nothing ------
+//@ func AllTrue(ctx, input, args) (res, err)
+//@   requires validColl(input)
+//@   ensures err == nil && len(res) == 1 && istype(res[0], system.Boolean)
+//@   ensures len(input) == 0 ==> res[0] == box(system.Boolean(true))
+//@   assigns nothing
+//@ func AnyTrue(ctx, input, args) (res, err)
+//@   requires validColl(input)
+//@   ensures err == nil && len(res) == 1 && istype(res[0], system.Boolean)
+//@   ensures len(input) == 0 ==> res[0] == box(system.Boolean(false))
+//@   assigns nothing
+//@ func AllFalse(ctx, input, args) (res, err)
+//@   requires validColl(input)
+//@   ensures err == nil && len(res) == 1 && istype(res[0], system.Boolean)
+//@   ensures len(input) == 0 ==> res[0] == box(system.Boolean(true))
+//@   assigns nothing
+//@ func AnyFalse(ctx, input, args) (res, err)
+//@   requires validColl(input)
+//@   ensures err == nil && len(res) == 1 && istype(res[0], system.Boolean)
+//@   ensures len(input) == 0 ==> res[0] == box(system.Boolean(false))
+//@   assigns nothing
